@@ -106,11 +106,14 @@ func impTok(v reflect.Value, kind string) string {
 }
 
 // impSerialize writes the non-local fields of the kernel's state in declaration order.
-func impSerialize(fields []impFieldSpec, recv map[string]interface{}, params map[string]interface{}) (string, error) {
+func impSerialize(fields []impFieldSpec, recv map[string]interface{}, params map[string]interface{}, post bool) (string, error) {
 	var sb strings.Builder
 	for _, f := range fields {
 		if f.Role == "local" {
 			continue
+		}
+		if f.Kind == "string" && !post {
+			continue // strings are flags the kernels only set: not part of the input, their length is part of the answer
 		}
 		var v reflect.Value
 		if f.Role == "param" {
@@ -130,6 +133,8 @@ func impSerialize(fields []impFieldSpec, recv map[string]interface{}, params map
 			sb.WriteByte(' ')
 		}
 		switch f.Kind {
+		case "string":
+			sb.WriteString(strconv.Itoa(len(v.String())))
 		case "float", "int", "bool":
 			sb.WriteString(impTok(v, f.Kind))
 		case "floats", "ints":
@@ -195,7 +200,7 @@ func correspondSrcImp(c *vh.Ctx, fn string, cases []srcImpCase, rel, abs float64
 	var lines, impl []string
 	var descs []interface{}
 	for _, cs := range cases {
-		pre, err := impSerialize(fields, cs.Recv, cs.Params)
+		pre, err := impSerialize(fields, cs.Recv, cs.Params, false)
 		if err != nil {
 			c.Violate("correspondence", "srcimp."+fn+":fields", "the state of "+fn+" cannot be read through the recorded access paths: "+err.Error(), nil)
 			return
@@ -213,7 +218,7 @@ func correspondSrcImp(c *vh.Ctx, fn string, cases []srcImpCase, rel, abs float64
 			c.Count("srcimp." + fn + ":panic-skipped")
 			continue
 		}
-		post, _ := impSerialize(fields, cs.Recv, cs.Params)
+		post, _ := impSerialize(fields, cs.Recv, cs.Params, true)
 		lines = append(lines, "srcimp."+fn+" "+pre)
 		impl = append(impl, post)
 		descs = append(descs, cs.Desc)
